@@ -19,6 +19,7 @@ EXPLANATION = (
     "builds (self, other) in that order. Decides the structural causes of the statement, for all arities and all paths; "
     "completion-order independence follows because every write is positional.")
 EXPLANATION += (' (CTOR) the entry point stores operand K, converted by into_future only, as the child of position K (tuple field / array or Vec element in order); nothing reorders, drops or duplicates operands on the way.')
+EXPLANATION += (' (EXT, surface) no inherent method of a future type of the crate is named `join` (it would win method resolution over FutureExt::join), and no body moves a field out of a by-value future / stream combinator.')
 ASSUMPTIONS = [
     "each child completes at most once (C03.GUARD/MARK) so counter == 0 <=> all children resolved",
     "MaybeUninit / mem::swap / array iteration behave per core docs",
